@@ -10,6 +10,15 @@ CLAIMED = {
  "C03": dict(technique="SSA dominance/guard analysis with calling contexts, test-and-set pattern, counting-argument premises, provenance over rbc and threshold",
              text="Sound static decision of structural necessary conditions of RBC integrity: hand-over at most once (test-and-set on the reception entry), never nil (local guard or re-checked counting premises), self vouches only on direct receipt attributed to the transport source, point-to-point pass-through, receiver-side digest, participant filter, quorum. Behaviour under concrete schedules is not decided.",
              design="§4 C03"),
+ "C04": dict(technique="table extraction from SSA/AST (ClassifyMsg switch, adapter map literals under the classifier's normalisation), writer/reader agreement per send site, context-pruned dominance guards on rbc",
+             text="Sound static decision of the table clauses of RBC totality (distinct broadcast rounds <=127 per phase for all four backends; sender-side class constant equals receiver-side class at every BLS/PS send site) and of three structural guards (acks about own messages dropped, early acks parked, p2p pass-through). Exactly-once delivery under every interleaving is not decided.",
+             design="§4 C04"),
+ "C16": dict(technique="SSA dominance of the seven authentication guards over every success return, provenance slicing of VerifyASN1 operands and lookup key, store/call ordering for signature blanking, who-may-send on the message channel",
+             text="Sound static decision of the full structure of transport attribution: seven guards dominate success, key/digest/signature/lookup-key/returned-id provenance, blanking order, single attributed sender. Cryptographic primitives and TLS exporter uniqueness are trusted.",
+             design="§4 C16"),
+ "C19": dict(technique="table extraction from the adapters' AST and from the resolved tss-lib source (registry lists, protobuf descriptors, MessageRouting literals), SSA guards and provenance for sender/digest binding",
+             text="Sound static decision that the adapters' tables equal tss-lib's registered message types and routing classes, that broadcast rounds are distinct per phase, that classification derives from the received type URL only, that the hand-over is dominated by claimed==from and Sign's success by the digest comparison.",
+             design="§4 C19"),
 }
 NOT_APPLICABLE = {
  "C08": "completeness of blind/sign/unblind/PoK is an algebraic identity over runtime group elements; no clause is visible in the shape of the code (DESIGN.md §4 C08)",
